@@ -964,7 +964,11 @@ func (cs *Contracts) parse(path, data string) error {
 					}
 					b = b[end+1:]
 				}
-				if kw == "ensures" && (strings.HasPrefix(strings.TrimSpace(b), "at \"") || strings.HasPrefix(strings.TrimSpace(b), "at `")) {
+				if kw == "ensures" && strings.HasPrefix(strings.TrimSpace(b), "at every return ") {
+					// ensures [name] at every return expr : checked at every return statement, may mention the
+					// locals in scope there (a return before the declaration of such a local is skipped)
+					cl.At, b = "*", strings.TrimSpace(strings.TrimSpace(b)[len("at every return "):])
+				} else if kw == "ensures" && (strings.HasPrefix(strings.TrimSpace(b), "at \"") || strings.HasPrefix(strings.TrimSpace(b), "at `")) {
 					// ensures [name] at "return statement text" expr : only checked at that return
 					at, rest, ok := anchorText(strings.TrimSpace(b)[3:])
 					if !ok {
